@@ -1,7 +1,9 @@
 package props
 
 import (
+	"encoding/hex"
 	"strings"
+	"sync"
 
 	"github.com/vektah/gqlparser/v2/ast"
 
@@ -16,9 +18,9 @@ var fmtSchemaFlagSets = []string{"", "c", "d", "cd", "b", "bd", "bc", "bcd"}
 func runC13(c *core.Ctx) {
 	const thm = "C13_* (props/C13.v); model op fs = Ops.dump_format_schema"
 	c.ReplayKnown()
-	nDocs := 3000
+	nDocs := 10000
 	if !c.Quick {
-		nDocs = 60000
+		nDocs = 200000
 	}
 	type cs struct{ text, expect, expectNoDesc, flags, indent, bi string }
 	feats := map[string]int{}
@@ -67,8 +69,106 @@ func runC13(c *core.Ctx) {
 	c.Evals += int64(nDocs)
 	c.Programs = int64(nDocs)
 	c.Sample(map[string]string{"document": cases[0].text, "flags": cases[0].flags, "indent": cases[0].indent})
+	runC13Loaded(c)
 }
 
+// second half: every loaded schema, formatted with FormatSchema and loaded again
+func runC13Loaded(c *core.Ctx) {
+	const thm = "C13_* (props/C13.v); model op fsl = Ops.dump_format_loaded"
+	nSchemas := 400
+	if !c.Quick {
+		nSchemas = 12000
+	}
+	type lc struct {
+		srcs          []string
+		flags, indent string
+	}
+	var cases []lc
+	for i := 0; i < nSchemas; i++ {
+		gs := gen.NewSchema(gen.New(c.Rng.U64()))
+		srcs := []string{gs.Text()}
+		if c.Rng.Chance(1, 4) {
+			srcs = gs.Chunks()
+		}
+		if c.Rng.Chance(1, 10) {
+			// an invalid schema: nothing to format, both sides must say so
+			gen.Pick(c.Rng, gen.SchemaFaults).Apply(c.Rng, gs)
+			srcs = []string{gs.Text()}
+		}
+		cases = append(cases, lc{srcs, gen.Pick(c.Rng, fmtSchemaFlagSets), gen.Pick(c.Rng, fmtIndents)})
+	}
+	// hand-written shapes that decide whether the schema block may be left out
+	for _, src := range []string{
+		"schema { query: Query }\ntype Query { a: Int }\ntype Mutation { notRoot: Int }",
+		"schema { query: RootQ mutation: Mutation }\ntype RootQ { a: Int }\ntype Mutation { set: Int }",
+		"schema @tag { query: Query }\ndirective @tag on SCHEMA\ntype Query { a: Int }",
+		"schema @tag { query: Query subscription: S }\ndirective @tag on SCHEMA\ntype Query { a: Int }\ntype S { t: Int }\ntype Subscription { x: Int }",
+		"type Query { a: Int }\ntype Mutation { b: Int }\ntype Subscription { c: Int }",
+		"extend schema @tag\ndirective @tag on SCHEMA\ntype Query { a: Int }",
+		"schema { mutation: Query }\ntype Query { a: Int }",
+		"type Query { a: Int }\nextend schema { mutation: M }\ntype M { b: Int }",
+	} {
+		for _, fl := range fmtSchemaFlagSets {
+			cases = append(cases, lc{[]string{src}, fl, "\t"})
+		}
+	}
+	var loaded, reloaded int64
+	var mu sync.Mutex
+	c.Pool.ParFor(len(cases), func(w, i int) {
+		k := cases[i]
+		args := append([][]byte{[]byte(k.flags), []byte(k.indent)}, toArgs(k.srcs)...)
+		impl := c.Impl(w, "fsl", args...)
+		v, cur, none := c.Tie(w, "fsl", impl, args...)
+		if v == core.Violation {
+			c.Report(w, "fsl", thm, args, impl, cur, none)
+		}
+		if impl == "schema-err" {
+			return
+		}
+		// oracle: the reloaded schema is the same schema, and printing it again gives the same text
+		parts := strings.Split(impl, "|")
+		problem := ""
+		if len(parts) != 3 {
+			problem = "formatted schema does not load"
+		} else if parts[2] != "1" {
+			problem = "formatting the reloaded schema gives a different text"
+		} else if s, err := loadImpl(k.srcs...); err == nil && s != nil {
+			text, _ := hex.DecodeString(parts[0])
+			if s2, err := reloadFormatted(k.flags, string(text)); err == nil && s2 != nil {
+				noDesc, bi := strings.Contains(k.flags, "d"), strings.Contains(k.flags, "b")
+				if NormDumpSchema(s, noDesc, bi) != NormDumpSchema(s2, noDesc, bi) {
+					problem = "the reloaded schema differs: " + diffAt(NormDumpSchema(s, noDesc, bi), NormDumpSchema(s2, noDesc, bi))
+				}
+				mu.Lock()
+				reloaded++
+				mu.Unlock()
+			}
+		}
+		mu.Lock()
+		loaded++
+		mu.Unlock()
+		if problem != "" && !c.Explained(w, "fsl", impl, args...) {
+			c.ReportOracle("format-load-roundtrip-schema", map[string]interface{}{"op": "fsl", "args": hexArgs(args), "sources": k.srcs,
+				"flags": k.flags, "indent": k.indent, "problem": problem, "implementation": impl})
+		}
+		c.Seen(true, []byte(k.srcs[0]))
+	})
+	c.Evals += int64(len(cases))
+	c.Count("loaded_schemas_formatted", loaded)
+	c.Count("loaded_schemas_reloaded_and_compared", reloaded)
+}
+
+func diffAt(a, b string) string {
+	i := 0
+	for i < len(a) && i < len(b) && a[i] == b[i] {
+		i++
+	}
+	lo := i - 60
+	if lo < 0 {
+		lo = 0
+	}
+	return "at " + itoa(i) + ": " + a[lo:min(len(a), i+60)] + " <> " + b[lo:min(len(b), i+60)]
+}
 func mergeSchemaDefs(l ast.SchemaDefinitionList) ast.SchemaDefinitionList {
 	if len(l) <= 1 {
 		return l
